@@ -1380,7 +1380,22 @@ fn main() {
     rep.rule = "a case = (match arms, subject mode, subject value(s)) or (unpack targets, iterable); match arms come from a systematic family (every parenthesised shape × 5 element symbols × {last, non-last, after-failing} alternative) and a seeded random generator (≤4 arms × ≤3 alternatives × nesting ≤3, maps, literals, `_`, type hints, guards, multi-subject); subjects are all tuples and lists of length ≤ 3 (quick) / ≤ 4 (thorough) over {0, 1, 'a', null, (0,), [1]} plus a fixed pool of maps, strings, ranges, numbers, null, bools and nested values; distinct = distinct (arms, subject) request text; non-trivial = at least one non-null subject".into();
     let open: Vec<String> =
         rep.known_open().iter().filter_map(|e| e.get("id").and_then(|x| x.as_str()).map(|s| s.to_string())).collect();
-    let drv = Driver::spawn(&args.driver);
+    let mut drv = Driver::spawn(&args.driver);
+    // the model mirrors the repairs whose findings are recorded as fixed (Match.Cfg)
+    let fixed = |id: &str| {
+        rep.known_entries().iter().any(|e| {
+            e.get("id").and_then(|x| x.as_str()) == Some(id) && e.get("status").and_then(|x| x.as_str()) == Some("fixed")
+        })
+    };
+    let cfg_line = format!(
+        "cfg {} {} {} {}",
+        fixed("F-C03-1") as u8,
+        fixed("F-C03-3") as u8,
+        fixed("F-C03-4") as u8,
+        fixed("F-C03-5") as u8
+    );
+    assert_eq!(drv.ask(&cfg_line), "ok");
+    rep.extra.insert("model_cfg".into(), json!(cfg_line));
     let mut cx = Ctx { rep, drv, imp: Impl::new(), open, known_counts: Default::default(), k_fail: 0, d_fail: 0, compile_fail: 0 };
 
     // --- replay: the program of a replay file is re-run and printed
